@@ -29,6 +29,7 @@ type CallSiteSpec struct {
 	Callee   string // function name pattern
 	Clause   *Clause
 	UseLemma bool // the clause is a lemma application: its instance is assumed here
+	Assume   bool // the clause is assumed at this site (an explicit, listed assumption)
 }
 
 type Contract struct {
@@ -330,16 +331,29 @@ func (db *ContractDB) parseContractFile(path, pkgPath string) {
 				continue
 			}
 			body := strings.TrimSpace(it.text[j+1:])
+			labelPart := ""
+			if strings.HasPrefix(body, "[") {
+				if k := strings.Index(body, "]"); k > 0 {
+					labelPart = body[:k+1] + " "
+					body = strings.TrimSpace(body[k+1:])
+				}
+			}
 			useLemma := false
 			if strings.HasPrefix(body, "use ") {
 				useLemma = true
 				body = strings.TrimSpace(body[4:])
 			}
+			assumeHere := false
+			if strings.HasPrefix(body, "assume ") {
+				assumeHere = true
+				body = strings.TrimSpace(body[7:])
+			}
+			body = labelPart + body
 			c := mkClause(item{it.kw, body, it.line})
 			if c == nil {
 				continue
 			}
-			cs := &CallSiteSpec{Callee: strings.TrimSpace(it.text[:j]), Clause: c, UseLemma: useLemma}
+			cs := &CallSiteSpec{Callee: strings.TrimSpace(it.text[:j]), Clause: c, UseLemma: useLemma, Assume: assumeHere}
 			if it.kw == "callsite" {
 				cur.CallSites = append(cur.CallSites, cs)
 			} else {
